@@ -66,10 +66,9 @@ def execute(ctx, c, r1, r2, opts):
     paired = c["inlayout"] != "single"
     if c["inlayout"] == "interleaved" or c["outlayout"] == "interleaved":
         argv.append("--interleaved")
-    if c["outname"] == "stdout":
-        if c["fastaflag"]:
-            argv.append("--fasta")
-    else:
+    if c["fastaflag"]:
+        argv.append("--fasta")
+    if c["outname"] != "stdout":
         outs = ["out1" + c["outname"] + osfx]
         argv += ["-o", outs[0]]
         if c["outlayout"] == "two":
@@ -186,8 +185,10 @@ def run(ctx):
     if ctx.quick:
         with_redirect = [c for c in cfgs if c["redirect"] != "none"]
         with_untrim = [c for c in cfgs if c["untrim"]]
-        cfgs = rng.sample([c for c in cfgs if c["redirect"] == "none" and not c["untrim"]], 220) + \
-            rng.sample(with_redirect, min(60, len(with_redirect))) + rng.sample(with_untrim, min(50, len(with_untrim)))
+        flag_named = [c for c in cfgs if c["fastaflag"] and c["outname"] != "stdout"]
+        cfgs = rng.sample([c for c in cfgs if c["redirect"] == "none" and not c["untrim"] and c not in flag_named], 220) + \
+            rng.sample(with_redirect, min(60, len(with_redirect))) + rng.sample(with_untrim, min(50, len(with_untrim))) + \
+            rng.sample(flag_named, min(50, len(flag_named)))
     r1, r2 = make_reads(rng, 7)
     ev = observe_all(ctx, cfgs, r1, r2)
     judge(ctx, ev, r1, r2)
